@@ -99,10 +99,10 @@ def run(ctx, rep, tier):
         seqs.append([rnd.choice(pool) for _ in range(k)])
     rnd.shuffle(seqs)
     samples, n = [], 0
-    t0 = time.time()
+    t0 = time.process_time()
     budget = 220 if tier == "quick" else 3000
     for seq in seqs:
-        if time.time() - t0 > budget:
+        if time.process_time() - t0 > budget:
             rep.coverage["truncated_after"] = n
             break
         leaves = [T.leaf(s) for s in seq]
@@ -146,7 +146,7 @@ def run(ctx, rep, tier):
     cov.update(explanation="request sequences (all ordered pairs of %d matcher and %d printer requests, mixed pairs, %d random sequences of "
                "3..%d requests) compiled by the real code (MIR); per program: scope analysis of every binder/use, count of distinct "
                "resources vs distinct requests, and z3-decided semantic equivalence (each reference reaches the right resource); "
-               "plus 3 matcher requests with symbolic 2-character patterns (every equality pattern decided by the solver)"
+               "plus matcher requests with symbolic patterns (three of equal length; case-sensitive/-insensitive pairs of different lengths): every equality pattern decided by the solver"
                % (len(MATCHERS), len(PRINTERS), 40 if tier == "quick" else 400, kmax),
                bounds=dict(max_requests=kmax, programs=n, symbolic_partitions=n_sym), samples=samples, programs=n + n_sym,
                evaluations=n + n_sym, distinct_nontrivial=n + n_sym, outside="300 resources (not explored); patterns with quote/backslash (C04)")
@@ -154,31 +154,46 @@ def run(ctx, rep, tier):
 
 
 def symbolic_patterns(B, rep, T, tier):
-    """-name P1 -o -iname P2 -o -name P3 with symbolic lower-case patterns: forks on key equality inside the manager"""
-    pats, assume = [], []
-    for i in range(3):
-        cs = [sym_char() for _ in range(2)]
-        pats.append(cs)
-        assume += [z3.And(z3.UGE(c, 97), z3.ULE(c, 99)) for c in cs]
-    kinds = [("Name", False), ("InsensitiveName", True), ("Name", False)]
-    leaves = [Adt("Expression", "Test", [Adt("Test", k, [StringV(p)])]) for (k, _), p in zip(kinds, pats)]
-    tree = leaves[0]
-    for l in leaves[1:]:
-        tree = Adt("Expression", "Operator", [BoxV(Adt("Operator", "Or", [tree, l]), "Rc")])
+    """matcher requests with symbolic patterns: the solver decides which requests coincide (forks on key equality inside the manager).
+    (a) three requests of equal length over a 3-letter alphabet; (b) a case-sensitive and a case-insensitive request of DIFFERENT
+    lengths over an alphabet with punctuation: two requests share a matcher only if pattern and case flag are both equal, whatever
+    key encoding the manager uses"""
     from .semantics import compare as cmp
-    E = B.engine("dev")
-    findings, info = cmp(B, "sympat", tree, "(symbolic patterns)", assume_extra=assume)
-    for f in findings:
-        m = f.get("model")
-        txt = ""
-        if m is not None:
-            ps = ["".join(chr(model_char(m, c)) for c in p) for p in pats]
-            sx = '(or (or (s "-name %s") (s "-iname %s")) (s "-name %s"))' % tuple(ps)
-            d = B.ctx.run_native_trees([sx])[0]
-            rep.violation("identifiers:symbolic:" + f["klass"], "patterns %r: %s" % (ps, f["text"]), dict(sexpr=sx, finding=f["text"], native_scheme=d.get("scheme", "")[:500]))
-        else:
-            rep.violation("identifiers:symbolic:" + f["klass"], f["text"], dict(finding=f["text"]))
-    return (info or {}).get("programs", 0)
+    total = 0
+    ALPHA = "abi/.:_-+~"
+    configs = [("eq3", [("Name", 2), ("InsensitiveName", 2), ("Name", 2)], "abc")]
+    pairs = [(3, 1), (2, 1)] if tier == "quick" else [(2, 1), (3, 1), (4, 1), (4, 2), (5, 2)]
+    for la, lb in pairs:
+        configs.append(("len%d-%d" % (la, lb), [("Name", la), ("InsensitiveName", lb)], ALPHA))
+        configs.append(("len%d-%d-rev" % (la, lb), [("InsensitiveName", lb), ("Name", la)], ALPHA))
+        if tier != "quick" or (la, lb) == (3, 1):
+            configs.append(("path%d-%d" % (la, lb), [("InsensitivePath", lb), ("Path", la)], ALPHA))
+    kw = {"Name": "-name", "InsensitiveName": "-iname", "Path": "-path", "InsensitivePath": "-ipath"}
+    for label, reqs, alphabet in configs:
+        pats, assume = [], []
+        for kind, n in reqs:
+            cs = [sym_char() for _ in range(n)]
+            pats.append(cs)
+            assume += [z3.Or(*[c == ord(x) for x in alphabet]) for c in cs]
+        leaves = [Adt("Expression", "Test", [Adt("Test", k, [StringV(p)])]) for (k, _), p in zip(reqs, pats)]
+        tree = leaves[0]
+        for l in leaves[1:]:
+            tree = Adt("Expression", "Operator", [BoxV(Adt("Operator", "Or", [tree, l]), "Rc")])
+        findings, info = cmp(B, "sympat-" + label, tree, "(symbolic patterns %s)" % label, assume_extra=assume)
+        total += (info or {}).get("programs", 0)
+        for f in findings:
+            m = f.get("model")
+            if m is not None:
+                ps = ["".join(chr(model_char(m, c)) for c in p) for p in pats]
+                parts = ['(s "%s %s")' % (kw[k], p) for (k, _), p in zip(reqs, ps)]
+                sx = parts[0]
+                for p_ in parts[1:]:
+                    sx = "(or %s %s)" % (sx, p_)
+                d = B.ctx.run_native_trees([sx])[0]
+                rep.violation("identifiers:symbolic:" + f["klass"], "patterns %r (%s): %s" % (ps, label, f["text"]), dict(sexpr=sx, finding=f["text"], native_scheme=d.get("scheme", "")[:500]))
+            else:
+                rep.violation("identifiers:symbolic:" + f["klass"], f["text"], dict(finding=f["text"]))
+    return total
 
 
 def replay(ctx, path):
